@@ -139,8 +139,22 @@ def check(pid, tier="quick", seed=None, only_cases=None):
                 notes.append("corpus file %s unreadable: %s" % (fn, e))
     if okc:
         gen_t0 = time.time()
-        for c in P.generate(rng, tier):
-            cases.append(c)
+        try:
+            for c in P.generate(rng, tier):
+                cases.append(c)
+        except Exception as e:
+            # a defect of the case generator under this seed is not a verdict about the code: keep what was generated,
+            # say so in the evidence, and top up from a derived seed so that the exploration is not cut short
+            import traceback
+            notes.append("generator raised %r after %d cases under seed %d (%s); continued with a derived seed"
+                         % (e, len(cases), seed, traceback.format_exc().strip().split("\n")[-3].strip()[:160]))
+            log("WARNING: generator raised %r after %d cases; continuing with a derived seed" % (e, len(cases)))
+            try:
+                import random as _r
+                for c in P.generate(_r.Random(seed * 7919 + 13), tier):
+                    cases.append(c)
+            except Exception as e2:
+                notes.append("generator raised again under the derived seed: %r" % (e2,))
         if broken and hasattr(P, "search"):
             for c in P.search(rng, broken):
                 c.kind = "search"
